@@ -732,10 +732,6 @@ func (ts *Service) handleCreateTask(w http.ResponseWriter, r *http.Request) {
 			task.Type = client.BatchTask
 		}
 		task.TICKscript = template.TICKscript
-		if err := ts.templates.AssociateTask(task.TemplateID, newTask.ID); err != nil {
-			httpd.HttpError(w, fmt.Sprintf("failed to associate task with template: %s", err), true, http.StatusBadRequest)
-			return
-		}
 	} else {
 		// Set task type
 		switch task.Type {
@@ -839,6 +835,15 @@ func (ts *Service) handleCreateTask(w http.ResponseWriter, r *http.Request) {
 		return
 	}
 
+	if newTask.TemplateID != "" {
+		// Associate only once the task exists.
+		if err := ts.templates.AssociateTask(newTask.TemplateID, newTask.ID); err != nil {
+			ts.tasks.Delete(newTask.ID)
+			httpd.HttpError(w, fmt.Sprintf("failed to associate task with template: %s", err), true, http.StatusInternalServerError)
+			return
+		}
+	}
+
 	// Count new task
 	vars.NumTasksVar.Add(1)
 	if newTask.Status == Enabled {
@@ -902,18 +907,6 @@ func (ts *Service) handleUpdateTask(w http.ResponseWriter, r *http.Request) {
 		if err != nil {
 			httpd.HttpError(w, fmt.Sprintf("unknown template %s: err: %s", task.TemplateID, err), true, http.StatusBadRequest)
 			return
-		}
-		if original.ID != updated.ID || original.TemplateID != updated.TemplateID {
-			if original.TemplateID != "" {
-				if err := ts.templates.DisassociateTask(original.TemplateID, original.ID); err != nil {
-					httpd.HttpError(w, fmt.Sprintf("failed to disassociate task with template: %s", err), true, http.StatusBadRequest)
-					return
-				}
-			}
-			if err := ts.templates.AssociateTask(templateID, updated.ID); err != nil {
-				httpd.HttpError(w, fmt.Sprintf("failed to associate task with template: %s", err), true, http.StatusBadRequest)
-				return
-			}
 		}
 		updated.Type = template.Type
 		updated.TICKscript = template.TICKscript
@@ -1028,6 +1021,10 @@ func (ts *Service) handleUpdateTask(w http.ResponseWriter, r *http.Request) {
 			httpd.HttpError(w, fmt.Sprintf("failed to create new task during ID change: %s", err.Error()), true, http.StatusInternalServerError)
 			return
 		}
+		if err := ts.updateTaskAssociation(original, updated); err != nil {
+			httpd.HttpError(w, err.Error(), true, http.StatusInternalServerError)
+			return
+		}
 		if err := ts.tasks.Delete(original.ID); err != nil {
 			ts.diag.Error(
 				"failed to delete old task definition during ID change",
@@ -1047,6 +1044,10 @@ func (ts *Service) handleUpdateTask(w http.ResponseWriter, r *http.Request) {
 	} else {
 		if err := ts.tasks.Replace(updated); err != nil {
 			httpd.HttpError(w, fmt.Sprintf("failed to replace task definition: %s", err.Error()), true, http.StatusInternalServerError)
+			return
+		}
+		if err := ts.updateTaskAssociation(original, updated); err != nil {
+			httpd.HttpError(w, err.Error(), true, http.StatusInternalServerError)
 			return
 		}
 	}
@@ -1074,6 +1075,22 @@ func (ts *Service) handleUpdateTask(w http.ResponseWriter, r *http.Request) {
 	}
 	w.WriteHeader(http.StatusOK)
 	w.Write(httpd.MarshalJSON(t, true))
+}
+
+// updateTaskAssociation moves the template association of a task once its new definition has been saved.
+func (ts *Service) updateTaskAssociation(original, updated Task) error {
+	if updated.TemplateID == "" {
+		return nil
+	}
+	if original.TemplateID != "" && (original.ID != updated.ID || original.TemplateID != updated.TemplateID) {
+		if err := ts.templates.DisassociateTask(original.TemplateID, original.ID); err != nil {
+			return fmt.Errorf("failed to disassociate task with template: %s", err)
+		}
+	}
+	if err := ts.templates.AssociateTask(updated.TemplateID, updated.ID); err != nil {
+		return fmt.Errorf("failed to associate task with template: %s", err)
+	}
+	return nil
 }
 
 func (ts *Service) convertTask(t Task, scriptFormat, dotView string, tm *kapacitor.TaskMaster) (client.Task, error) {
